@@ -357,6 +357,29 @@ def main():
                 return
         print(json.dumps(dict(replayed=True, failing_input_found=False, trials=3)))
         return
+    if "lives on the device" in witness.get("clause", ""):
+        import cola
+        from cola.ops.operator_base import LinearOperator
+        for t in range(min(n_trials, 10)):
+            try:
+                args = concrete_args([tuple(c) for c in choice], cfg, rng)
+                impl = sig.implementation if sig is not None else getattr(F, "_abstract", F)
+                r = impl(*args)
+            except Exception:
+                continue
+            ops = [a for a in args if isinstance(a, LinearOperator)]
+            if isinstance(r, LinearOperator) and ops and repr(r.device) != repr(ops[0].device):
+                obs = f"result.device = {r.device!r}, operand.device = {ops[0].device!r}"
+                try:     # the consequence a user sees: the result cannot be combined with other operators of the same backend
+                    n_ = r.shape[-1]
+                    cola.ops.Product(r, cola.ops.Dense(np.eye(n_, dtype=r.dtype)))
+                except Exception as e:
+                    obs += f"; Product(result, Dense(I)) raises {type(e).__name__}: {str(e)[:100]} (so does {fname} of a product containing the operand, e.g. inv(2.0 * Dense(M)))"
+                print(json.dumps(dict(replayed=True, failing_input_found=True, trial=t, clause=witness.get("clause"), observed=obs, expected="the device of the operand",
+                                      args=[repr(a) for a in args], how="real rule implementation on a concrete operator")))
+                return
+        print(json.dumps(dict(replayed=True, failing_input_found=False, trials=10)))
+        return
     tried = errors = 0
     first_err = None
     for t in range(n_trials):
